@@ -141,13 +141,16 @@ def obligations(tier, seed):
     if thorough:
         seqs += [[["insert", ["$i0", "$i1", "$i2"]], ["remove"]], [["insert", ["$i0"]], ["remove"], ["insert", ["$i1"]]], [["insert", ["$i0"]], ["insert", ["$i1"]], ["remove"]]]
     seqs.append([["insert", ["$i0"]], ["insert", ["$i1", "$i2"]], ["remove"]])
+    seqs.append([["insert", ["$i0"]], ["insert", ["$i1", "$i2", "$i3"]], ["remove"]])
     members.append(("wf-backward", members[0][1], [["w0", 1, 2], ["w1", 1, 2], ["pa0", 0, 6]], {"backward": True}))
     for mname, spec, params, consts in members:
         for ops in (seqs if mname not in ("subtask", "wf-backward") else seqs[:1] + seqs[4:5]):
             if len(ops) == 3 and mname != "wf2teams" and not thorough:
                 continue
             names = sorted({x[1:] for o in ops if len(o) > 1 for x in o[1]})
-            pr = list(params) + [[n, 0, 8 if thorough else 7] for n in names]
+            pr = list(params) + [[n, 0, (8 if thorough else 7) if len(names) < 4 else 5] for n in names]
+            if len(names) == 4:
+                pr = [[n, lo, hi] if n != "pa0" else [n, 6, 6] for n, lo, hi in pr]
             obs.append({"name": "edit/%s/%s" % (mname, ">".join(o[0] + (str(len(o[1])) if len(o) > 1 else "") for o in ops)), "harness": "edit",
                         "cube": dict(consts, spec=spec, ops=ops), "params": pr, "timeout": 900 if thorough else 150, "engine": "zsym"})
     return profiles.split_param(obs, "i0")
